@@ -21,7 +21,7 @@ def run_one(item):
             r = subprocess.run([os.path.join(V, 'check'), pid], env=env, stdout=subprocess.PIPE, stderr=subprocess.STDOUT, text=True)
             rules = sorted({l.split()[1] for l in r.stdout.splitlines() if l.startswith('  [')})
             kinds = sorted({l.split()[0].strip('[]') + ':' + l.split()[1] for l in r.stdout.splitlines() if l.startswith('  [')})
-            res[pid] = {'rc': r.returncode, 'rules': rules, 'kinds': kinds}
+            res[pid] = {'rc': (r.returncode if (r.returncode != 1 or rules) else 3), 'rules': rules, 'kinds': kinds}
     finally:
         shutil.rmtree(tmp, ignore_errors=True)
     return name, res
